@@ -1273,3 +1273,57 @@ MUTANTS += [
       edits=[('src/wkdibe/api.cpp', 'for (int i = 0; i != sk.l; i++) {\n                while (k != attrs->length && attrs->attrs[k].idx < sk.b[i].idx) {',
               'for (int i = 0; i + 1 < sk.l; i++) {\n                while (k != attrs->length && attrs->attrs[k].idx < sk.b[i].idx) {')]),
 ]
+
+# ---- benign-refactor round 2 (C02 C03 C04 C07 C10 C13 C16 C17 C19 C20) and defective variants of the refactored forms
+MUTANTS += [
+ dict(name='benign-r2-C02', prop='C02', benign=True, expect='', patch='selftest/fixes/benign-r2-C02.patch'),
+ dict(name='benign-r2-C02-on-C03', prop='C03', benign=True, expect='', patch='selftest/fixes/benign-r2-C02.patch'),
+ dict(name='benign-r2-C02-on-C04', prop='C04', benign=True, expect='', patch='selftest/fixes/benign-r2-C02.patch'),
+ dict(name='benign-r2-C02-on-C01', prop='C01', benign=True, expect='', patch='selftest/fixes/benign-r2-C02.patch'),
+ dict(name='benign-r2-C03', prop='C03', benign=True, expect='', patch='selftest/fixes/benign-r2-C03.patch'),
+ dict(name='benign-r2-C03-on-C02', prop='C02', benign=True, expect='', patch='selftest/fixes/benign-r2-C03.patch'),
+ dict(name='benign-r2-C04', prop='C04', benign=True, expect='', patch='selftest/fixes/benign-r2-C04.patch'),
+ dict(name='benign-r2-C04-on-C18', prop='C18', benign=True, expect='', patch='selftest/fixes/benign-r2-C04.patch'),
+ dict(name='benign-r2-C07', prop='C07', benign=True, expect='', patch='selftest/fixes/benign-r2-C07.patch'),
+ dict(name='benign-r2-C07-on-C10', prop='C10', benign=True, expect='', patch='selftest/fixes/benign-r2-C07.patch'),
+ dict(name='benign-r2-C07-on-C06', prop='C06', benign=True, expect='', patch='selftest/fixes/benign-r2-C07.patch'),
+ dict(name='benign-r2-C10', prop='C10', benign=True, expect='', patch='selftest/fixes/benign-r2-C10.patch'),
+ dict(name='benign-r2-C10-on-C02', prop='C02', benign=True, expect='', patch='selftest/fixes/benign-r2-C10.patch'),
+ dict(name='benign-r2-C13', prop='C13', benign=True, expect='', patch='selftest/fixes/benign-r2-C13.patch'),
+ dict(name='benign-r2-C13-on-C14', prop='C14', benign=True, expect='', patch='selftest/fixes/benign-r2-C13.patch'),
+ dict(name='benign-r2-C16', prop='C16', benign=True, expect='', patch='selftest/fixes/benign-r2-C16.patch'),
+ dict(name='benign-r2-C17', prop='C17', benign=True, expect='', patch='selftest/fixes/benign-r2-C17.patch'),
+ dict(name='benign-r2-C17-on-C15', prop='C15', benign=True, expect='', patch='selftest/fixes/benign-r2-C17.patch'),
+ dict(name='benign-r2-C19', prop='C19', benign=True, expect='', patch='selftest/fixes/benign-r2-C19.patch'),
+ dict(name='benign-r2-C20', prop='C20', benign=True, expect='', patch='selftest/fixes/benign-r2-C20.patch'),
+ dict(name='benign-r2-C20-on-C01', prop='C01', benign=True, expect='', patch='selftest/fixes/benign-r2-C20.patch'),
+ dict(name='benign-r2-C20-on-C08', prop='C08', benign=True, expect='', patch='selftest/fixes/benign-r2-C20.patch'),
+ dict(name='benign-r2-C20-helper-ignores-g2', prop='C01', expect='R-GUARD/G1', patch='selftest/fixes/benign-r2-C20.patch',
+      edits=[('src/bls12_381/pairing.cpp', 'return !pair.g2->is_zero();', 'return true;')]),
+ dict(name='benign-r2-C20-helper-ignores-g2-c08', prop='C08', expect='VIOLATION property=C08', patch='selftest/fixes/benign-r2-C20.patch',
+      edits=[('src/bls12_381/pairing.cpp', 'return !pair.g2->is_zero();', 'return true;')]),
+ dict(name='benign-r2-C02-helper-and', prop='C02', expect='R-CANON', patch='selftest/fixes/benign-r2-C02.patch',
+      edits=[('include/core/fp.hpp', 'if (overflowed || at_least_p) {', 'if (overflowed && at_least_p) {')]),
+ dict(name='benign-r2-C02-helper-gt', prop='C02', expect='VIOLATION property=C02', patch='selftest/fixes/benign-r2-C02.patch',
+      edits=[('include/core/fp.hpp', 'const bool at_least_p = (BigInt<bits>::compare(this->val, p) >= 0);', 'const bool at_least_p = (BigInt<bits>::compare(this->val, p) > 0);')]),
+ dict(name='benign-r2-C13-helper-wrong-id', prop='C13', expect='R-SCHEME', patch='selftest/fixes/benign-r2-C13.patch',
+      edits=[('src/wkdibe/api.cpp', 'temp.multiply(slot.hexp, attr.id);', 'temp.multiply(slot.hexp, attrs.attrs[0].id);')]),
+ dict(name='benign-r2-C13-helper-no-kpp', prop='C13', expect='VIOLATION property=C13', patch='selftest/fixes/benign-r2-C13.patch',
+      edits=[('src/wkdibe/api.cpp', 'signature.a0.add(signature.a0, temp);\n                k++;', 'signature.a0.add(signature.a0, temp);')]),
+ dict(name='benign-r2-C16-helper-short-hash', prop='C16', expect='VIOLATION property=C16', patch='selftest/fixes/benign-r2-C16.patch',
+      edits=[('src/lqibe/api.cpp', 'hash_fill(symmetric, symmetric_length, &buffer, sizeof(buffer));', 'hash_fill(symmetric, symmetric_length, &buffer, sizeof(buffer) - 1);')]),
+ dict(name='benign-r2-C16-helper-pairing-unwritten', prop='C16', expect='VIOLATION property=C16', patch='selftest/fixes/benign-r2-C16.patch',
+      edits=[('src/lqibe/api.cpp', 'shared.write_big_endian(buffer.pairing);', '/* pairing bytes left as they are */')]),
+ dict(name='benign-r2-C17-store-skips-byte0', prop='C17', expect='VIOLATION property=C17', patch='selftest/fixes/benign-r2-C17.patch',
+      edits=[('src/wkdibe/marshal.cpp', 'for (int i = 3; i >= 0; i--) {', 'for (int i = 3; i > 0; i--) {')]),
+ dict(name='benign-r2-C17-load-shift-4', prop='C15', expect='VIOLATION property=C15', patch='selftest/fixes/benign-r2-C17.patch',
+      edits=[('src/wkdibe/marshal.cpp', 'value = (value << 8) | (uint32_t) src[i];', 'value = (value << 4) | (uint32_t) src[i];')]),
+ dict(name='benign-r2-C17-load-five-bytes', prop='C17', expect='VIOLATION property=C17', patch='selftest/fixes/benign-r2-C17.patch',
+      edits=[('src/wkdibe/marshal.cpp', 'for (int i = 0; i != 4; i++) {\n            value = (value << 8)', 'for (int i = 0; i != 5; i++) {\n            value = (value << 8)')]),
+ dict(name='benign-r2-C07-reduce-only-equal', prop='C07', expect='PowersOfX::decompose', patch='selftest/fixes/benign-r2-C07.patch',
+      edits=[('src/bls12_381/decomposition.cpp', 'if (BigInt<256>::compare(y, Fr::p_value) != -1) {\n            reduced.subtract', 'if (BigInt<256>::compare(y, Fr::p_value) == 0) {\n            reduced.subtract')]),
+ dict(name='benign-r2-C07-recombine-wrong-power', prop='C07', expect='VIOLATION property=C07', patch='selftest/fixes/benign-r2-C07.patch',
+      edits=[('src/bls12_381/decomposition.cpp', 't1.multiply(c[1], bls_x);', 't1.multiply(c[0], bls_x);')]),
+ dict(name='benign-r2-C10-mask-ff', prop='C10', expect='VIOLATION property=C10', patch='selftest/fixes/benign-r2-C10.patch',
+      edits=[('src/bls12_381/fr.cpp', 'top_byte &= 0x7F;', 'top_byte &= 0xFF;')]),
+]
